@@ -227,11 +227,14 @@ def mol_cases(draw, tier, min_frames=2):
     Nc = draw(st.integers(1, 3))
     T = draw(st.integers(min_frames, 24 if big else 10))
     b0 = draw(st.floats(0.8, 1.1))
+    near_unit = draw(st.integers(0, 4)) == 0  # bonds already within one per cent of unit length
     bonds = []
     for _ in range(Nc):
         R0 = oracle.quat_to_rot(draw(st.tuples(*[st.floats(-1, 1)] * 4).filter(lambda q: sum(x * x for x in q) > 1e-2)))
         lens = [b0 * draw(st.floats(1.0, 1.4)) for _ in range(4)]
         lens[draw(st.integers(0, 3))] = b0
+        if near_unit:
+            lens = [1.0 + draw(st.sampled_from([-0.008, -0.003, 0.0, 0.004, 0.007])) for _ in range(4)]
         jitter = np.array([[draw(st.floats(-0.08, 0.08)) for _ in range(3)] for _ in range(4)])
         d = TET + jitter
         d = d / np.linalg.norm(d, axis=1, keepdims=True)
